@@ -164,6 +164,11 @@ def b_random(seed_base, programs, what="both"):
         return run_native("c01_random_bounded", {"seed": seed_base + seed, "programs": programs, "what": what, "max_failures": 5}, timeout=1500)
     return run
 
+def b_programs(seed):
+    from replay.native import run_native
+    return run_native("c03_programs_bounded", {"seed": seed, "set": "C01"}, timeout=600)
+
+
 def harnesses():
     hs = []
     heavy = {"ListComp.2gen", "ListComp.tuple-target", "SetComp.2gen", "DictComp.2gen"}  # nested iteration: thorough tier (larger budget)
@@ -173,6 +178,7 @@ def harnesses():
     for name, src in STMT.items():
         hs.append(Harness(name, h_template(name, src, "exec"), units=[(E_PY, "AstEval.aeval")], replay=replay_template, max_paths=3000))
     hs.append(Harness("adequacy.native-differential", b_adequacy, units=[(E_PY, "AstEval.aeval")], kind="bounded"))
+    hs.append(Harness("programs.native-differential", b_programs, units=[(E_PY, "AstEval.ast_tuple"), (E_PY, "AstEval.ast_list"), (E_PY, "AstEval.ast_dict"), (E_PY, "AstEval.ast_set")], kind="bounded"))
     hs.append(Harness("random.native-differential", b_random(0, 400), units=[(E_PY, "AstEval.aeval")], kind="bounded"))
     for k in range(1, 9):
         hs.append(Harness(f"random.native-differential[thorough {k}/8]", b_random(100 * k, 1500), units=[(E_PY, "AstEval.aeval")], kind="bounded", tier="thorough"))
